@@ -105,6 +105,8 @@ def generate(rng: random.Random, cons: dict) -> dict:
     occupied = np.zeros((T, *fshape), dtype=bool)
     nodes: dict = {}
     nid = 1 if id_style != "large" else rng.randint(200, 900)
+    if not seg and not big and id_style == "contig" and rng.random() < 0.3:
+        nid = 0  # node id 0 is an ordinary id without a label array ("if node:" is a classic)
     w["thick3d"] = bool(seg and ndim == 4 and rng.random() < 0.5)
     thick = 2 if w["thick3d"] else 1
     for _ in range(n_nodes):
@@ -189,6 +191,9 @@ def generate(rng: random.Random, cons: dict) -> dict:
     w["np_client"] = rng.random() < 0.2
     # non-default attribute names for the two id features (tracklet_attr= / lineage_attr=)
     w["id_keys"] = rng.choice(["default"] * 4 + ["renamed"])
+    # memory layout of the label array the caller hands over: C-contiguous, Fortran order
+    # (a y,x,t stack made time-first with moveaxis), or a strided crop of a larger array
+    w["seg_layout"] = rng.choice(["C", "C", "C", "F", "crop"]) if seg else "C"
     return w
 
 
@@ -218,6 +223,10 @@ def build(w: dict):
     tkey = w["time_key"]
     g = nx.DiGraph()
     seg = np.zeros(shape, dtype=np.dtype(w["dtype"])) if w["seg"] else None
+    if seg is not None and w.get("seg_layout") == "F":
+        seg = np.asfortranarray(seg)
+    elif seg is not None and w.get("seg_layout") == "crop":
+        seg = np.zeros((shape[0], *[x + 2 for x in shape[1:]]), dtype=np.dtype(w["dtype"]))[(slice(None), *[slice(1, -1)] * (len(shape) - 1))]
     pos_mode = w["pos_mode"]
     ax = axis_names(ndim)
     renamed = w.get("id_keys") == "renamed"
